@@ -3,6 +3,7 @@
 # applies a change in a scratch worktree of /repo (never /repo itself), runs the check there, removes the worktree
 set -u
 PID=$1; CH=$2; TIER=${3:-quick}
+[[ "$CH" != sed:* ]] && CH="$(realpath "$CH")"
 HERE="$(cd "$(dirname "$0")/.." && pwd)"
 WT=/tmp/pav_wt_$$
 git -C /repo worktree add --detach -q $WT HEAD || exit 3
